@@ -12,7 +12,7 @@
 From Coq Require Import ZArith List Bool.
 From PCB Require Import lib.Result lib.PyInt lib.Harness lib.MBFPrims gen.Gen_mbf gen.Gen_dec model.MBF
   model.Decimal proofs.MBF_base proofs.Decimal_den proofs.Decimal_todec proofs.Decimal_print
-  proofs.Decimal_parse proofs.Decimal_back proofs.Decimal_proofs.
+  proofs.Decimal_parse proofs.Decimal_back proofs.Decimal_accum proofs.Decimal_proofs.
 Import ListNotations.
 Open Scope Z_scope.
 
@@ -143,22 +143,44 @@ Definition C07_print_err_statement : Prop :=
     if 0 <=? k then Z.abs (pd_int s * 10 ^ k * B - X) < 10 ^ k * B
     else Z.abs (pd_int s * B - X * 10 ^ (- k)) < B.
 
-(* a literal whose digit string fits the mantissa of its type is stored with an error of less than one
-   unit in the last binary place of the stored number (decimal value = doc_mantissa * 10^doc_exp10) *)
-Definition C07_parse_err_statement : Prop :=
-  forall hard word allow F b,
-    let t := nonblank (stripped word) in
-    (forall r, stripped word <> 38 :: r) -> has_nonnum t = false -> is_fmt F ->
-    from_repr hard word allow = Ok (d_mk F b) -> f_zero b = false ->
-    Z.abs (doc_mantissa t) < 2 ^ mbits (d_C F) ->
-    let Y := f_sval (d_C F) b in
-    let B := 2 ^ c_bias (d_C F) in
-    let U := 2 ^ f_exp b in
-    let k := doc_exp10 t in
-    if 0 <=? k then Z.abs (Y - doc_mantissa t * 10 ^ k * B) < U
-    else Z.abs (Y * 10 ^ (- k) - doc_mantissa t * B) < U * 10 ^ (- k).
+(* READING (proved): a literal whose digit string fits the mantissa of its type (every literal of up to 7 / 16
+   digits) is stored with an error of less than one unit in the last binary place of the stored number.
+   Decimal value = doc_mantissa * 10^doc_exp10 (C07_parser_reading); Y = stored value * 2^bias;
+   U = 2^(exponent byte) = one unit in the last place * 2^bias.  Any negative exponent (results that
+   underflow to zero are excluded by f_zero b = false); positive exponents up to 62 (10^63 overflows).
+   `from_repr true`: the error handler raises Overflow (the soft handler returns the largest number instead). *)
+Theorem C07_parse_err : forall word allow F b,
+  let t := nonblank (stripped word) in
+  (forall r, stripped word <> 38 :: r) -> is_fmt F ->
+  from_repr true word allow = Ok (d_mk F b) -> f_zero b = false ->
+  Z.abs (doc_mantissa t) < 2 ^ mbits (d_C F) -> doc_exp10 t <= 62 ->
+  let Y := f_sval (d_C F) b in
+  let B := 2 ^ c_bias (d_C F) in
+  let U := 2 ^ f_exp b in
+  let k := doc_exp10 t in
+  buf_ok (d_C F) b /\
+  (if 0 <=? k then Z.abs (Y - doc_mantissa t * 10 ^ k * B) < U
+   else Z.abs (Y * 10 ^ (- k) - doc_mantissa t * B) < U * 10 ^ (- k)).
+Proof. exact parse_err. Qed.
+Print Assumptions C07_parse_err.
 
-(* the hypothesis |mantissa| < 2^mbits of the parse statement is needed (known finding K07a): the
+(* the same at the level of Float.from_decimal, with the constants of the accumulation: after k divisions the
+   computed den is below the exact value by less than 128 units of its last guard bit (k <= 62), etc. *)
+Theorem C07_from_decimal_div_err : forall F mant (k : nat) b, is_fmt F -> mant <> 0 -> Z.abs mant < 2 ^ mbits (d_C F) ->
+  mbf_from_decimal (d_C F) (zeros (c_size (d_C F))) mant (- Z.of_nat k) = Ok b -> f_zero b = false ->
+  buf_ok (d_C F) b /\
+  Z.abs (f_sval (d_C F) b * 10 ^ Z.of_nat k - mant * 2 ^ c_bias (d_C F)) < 2 ^ f_exp b * 10 ^ Z.of_nat k.
+Proof. intros F mant k b HF. destruct (fmt_ten F HF) as [HC Hten]. exact (from_decimal_div_err (d_C F) HC Hten mant k b). Qed.
+Print Assumptions C07_from_decimal_div_err.
+
+Theorem C07_from_decimal_mul_err : forall F mant (k : nat) b, is_fmt F -> mant <> 0 -> Z.abs mant < 2 ^ mbits (d_C F) ->
+  Z.of_nat k <= 62 -> mbf_from_decimal (d_C F) (zeros (c_size (d_C F))) mant (Z.of_nat k) = Ok b ->
+  buf_ok (d_C F) b /\ f_zero b = false /\
+  Z.abs (f_sval (d_C F) b - mant * 10 ^ Z.of_nat k * 2 ^ c_bias (d_C F)) < 2 ^ f_exp b.
+Proof. intros F mant k b HF. destruct (fmt_ten F HF) as [HC _]. exact (from_decimal_mul_err (d_C F) HC mant k b). Qed.
+Print Assumptions C07_from_decimal_mul_err.
+
+(* the hypothesis |mantissa| < 2^mbits of C07_parse_err is needed (known finding K07a): the
    19-digit literal 974824.3516702999802 is stored more than two units of the last place off *)
 Theorem C07_parse_long_literal_refuted :
   let w := [57; 55; 52; 56; 50; 52; 46; 51; 53; 49; 54; 55; 48; 50; 57; 57; 57; 56; 48; 50] in
